@@ -745,6 +745,11 @@ func tForeignPeerProbe(w *World, wo *WireOracles, res *KResult) {
 		if pkt != nil {
 			wo.acct(c).delivered[1][2][int64(pn)] = true // the client is about to be delivered this number
 			wo.forged[0] = append(wo.forged[0], int64(pn))
+			// (the genuine server knows nothing of this packet and will use the number again: for the client that one is a
+			// duplicate, which it neither processes nor owes an acknowledgement)
+			a := wo.acct(c)
+			a.surely[1][2][int64(pn)] = true
+			a.maxSurely[1][2] = max(a.maxSurely[1][2], int64(pn))
 		}
 	}
 	nowMS := w.NowNS() / 1e6
